@@ -104,9 +104,15 @@ def check(prog, rec):
     if hasloop: rec.label('has-loop')
 
 
-SUBS = [Sub('nodes', strategy, check, {'quick': 3000, 'thorough': 30000}, timeout=30)]
+SUBS = [Sub('nodes', strategy, check, {'quick': 3000, 'thorough': 30000}, timeout=25)]
 
-TRIGGERS = {}
+def _upstream_c01(case, v):
+    prog = case.get('prog', case)
+    ops = {n['op'] for n in prog['nodes']}
+    return 'diagonalize' in ops and bool(ops & {'inflate', 'take'})
+
+
+TRIGGERS = {'upstream-C01-inflate-diagonalize': _upstream_c01}
 
 MANIFEST = dict(
     category='exploration',
